@@ -762,10 +762,19 @@ func (r *Raft) submitReadOnlyOperation(
 		return operationFuture
 	}
 
+	// The read must observe every operation acknowledged before it was submitted. Once an entry
+	// of the current term is committed the commit index covers all of them. Before that, the commit
+	// index may still be behind operations acknowledged by earlier leaders (they are in this
+	// leader's log but it has not learned that they are committed), so read at the end of the log.
+	readIndex := r.commitIndex
+	if !r.committedThisTerm() {
+		readIndex = r.log.LastIndex()
+	}
+
 	operation := &Operation{
 		Bytes:         operationBytes,
 		OperationType: readOnlyType,
-		readIndex:     r.commitIndex,
+		readIndex:     readIndex,
 	}
 	r.operationManager.pendingReadOnly[operation] = operationFuture.responseCh
 
